@@ -85,7 +85,9 @@ class TDRedfieldRelaxationTensor(RedfieldRelaxationTensor, TimeDependent):
         # number of baths - one per monomer            
         Nb = sbi.N
 
-        self.Nt = length
+        # the tensor is defined on the whole time axis; beyond the cut-off 
+        # time it keeps the value reached there
+        self.Nt = ta.length
         Nt = self.Nt
         
         #
@@ -136,7 +138,8 @@ class TDRedfieldRelaxationTensor(RedfieldRelaxationTensor, TimeDependent):
                         cc_mnab = (sr + 1.0j*si)
                         
                         # \Lambda_m operators
-                        Lm[:,ms,a,b] += cc_mnab*Km[ns,a,b] 
+                        Lm[0:length,ms,a,b] += cc_mnab*Km[ns,a,b] 
+                        Lm[length:,ms,a,b] += cc_mnab[length-1]*Km[ns,a,b]
              
         
         # create the Hermite conjuged version of \Lamnda_m
